@@ -42,10 +42,11 @@ uint64_t steps();    // schedule points taken in the current execution
 void set_state_probe(uint64_t (*probe)());
 // early expiry of timed waits as a costed deviation (default on); off = timeouts fire only when no thread can run
 void set_early_timeouts(bool on);
-// pthread_detach is recorded per thread. With strict joins on (default off: the call is passed on as before), pthread_join on a
-// detached thread or on the null handle does not wait: it takes one schedule point, returns EINVAL / ESRCH and is counted.
+// pthread_detach is recorded per thread. With strict joins on (default off: the calls are passed on as before), pthread_join on a
+// detached thread or on the null handle does not wait: it takes one schedule point, returns EINVAL / ESRCH and is counted;
+// pthread_detach on the null handle or on a thread that was already joined or detached is refused and counted likewise.
 void set_strict_joins(bool on);
-int invalid_joins(); // refused joins in the current (or, after run_once returned, the last) execution
+int invalid_joins(); // refused join/detach calls in the current (or, after run_once returned, the last) execution
 
 struct ExploreStats { uint64_t executions, points, max_points, pruned_by_bound, with_preemption, pruned_by_state; int bound_completed; bool complete; uint64_t distinct_states; bool states_saturated; };
 // distinct scheduler-visible states (thread positions, lock/semaphore/pipe contents, clock, harness probe) seen at schedule
